@@ -127,8 +127,9 @@ Op(rr) ==
                   IN NewGen(Zip2(xs, pool[j].v), e.inf /\ pool[j].inf, "pair",
                             [k |-> "call", f |-> "zip", sty |-> "fn", args |-> <<V(i), V(j)>>])
       [] o = 8 /\ ~e.inf /\ e.ety \in {"int", "pair"} -> LET S2 == Gens(e.ety, TRUE) j == Ch(S2, rr[3])
-                  IN NewGen(SubSeq(xs \o pool[j].v, 1, Mn(PL, n + Len(pool[j].v))), pool[j].inf, e.ety,
-                            [k |-> "call", f |-> "add", sty |-> "op", args |-> <<V(i), V(j)>>])
+                  IN IF ~pool[j].inf /\ n + Len(pool[j].v) > 40 THEN Source(rr)      \* finite streams are never cut
+                     ELSE NewGen(SubSeq(xs \o pool[j].v, 1, Mn(PL, n + Len(pool[j].v))), pool[j].inf, e.ety,
+                                 [k |-> "call", f |-> "add", sty |-> "op", args |-> <<V(i), V(j)>>])
       [] o = 9 /\ int /\ n >= 1 -> NewGen(Sums(xs, 1, 0), e.inf, "int", Call("aggregate", <<V(i), Raw("(a: int, b: int) -> {a + b}")>>))
       [] o = 10 /\ ~e.inf /\ int -> NewGen([j \in 1..n |-> StructV(<<IntV(j - 1), xs[j]>>)], FALSE, "pair", Call("enumerate", <<V(i)>>))
       [] o = 11 /\ ~e.inf /\ int -> LET w == Ch(1..3, rr[3]) IN NewGen(Windows(xs, w), FALSE, "seq", Call("windows", <<V(i), Lit(w)>>))
